@@ -104,6 +104,7 @@ pub struct TlInner {
     pub budget_end: u64,
     pub faulted: Option<Fault>,
     pub ops_after_fault: u64,
+    pub delays_after_fault: u64,
     pub bus: Vec<BusEv>,
     pub raw_on: bool,
     pub raw: Vec<Raw>,
@@ -143,6 +144,7 @@ impl Tl {
             budget_end: u64::MAX,
             faulted: None,
             ops_after_fault: 0,
+            delays_after_fault: 0,
             bus: Vec::new(),
             raw_on: false,
             raw: Vec::new(),
@@ -177,6 +179,7 @@ impl Tl {
         let mut t = self.b();
         t.faulted = None;
         t.ops_after_fault = 0;
+        t.delays_after_fault = 0;
         t.budget_end = t.ops.saturating_add(budget);
         t.fail_at = fail_at_rel.map(|k| t.ops + k);
     }
@@ -417,7 +420,8 @@ impl DelayNs for Delay {
         let mut t = self.tl.b();
         t.delay_calls += 1;
         if t.faulted.is_some() {
-            t.ops_after_fault += 1;
+            // a delay is neither a pin nor a bus operation: evidence only
+            t.delays_after_fault += 1;
         }
         if t.raw_on {
             t.raw.push(Raw::Delay(ns));
